@@ -12,10 +12,9 @@ use std::sync::atomic::{AtomicBool, Ordering};
 use std::sync::{Arc, Mutex};
 use trust_runtime::error::RuntimeError;
 use trust_runtime::harness::TestHarness;
-use trust_runtime::io::{IoAddress, IoDriver, IoSafeState};
+use trust_runtime::io::IoDriver;
 use trust_runtime::scheduler::{ManualClock, ResourceCommand, ResourceRunner, ResourceState, SharedGlobals};
 use trust_runtime::value::{Duration, Value};
-use trust_runtime::watchdog::{FaultPolicy, WatchdogAction, WatchdogPolicy};
 
 const SRC: &str = r#"
 CONFIGURATION C
@@ -61,6 +60,81 @@ impl IoDriver for Drv {
     }
 }
 
+
+/// The configuration front of the shipped runtime: the policies are written as a `runtime.toml` / `io.toml` pair
+/// (the texts a project folder holds), read with the real loaders and applied to the runtime the way
+/// bin/trust-runtime/run.rs does.  The trace carries the names and numbers that were WRITTEN, so a wrong mapping in
+/// the loaders shows as wrong behaviour.
+pub(crate) const RUNTIME_TOML: &str = r#"[bundle]
+version = 1
+
+[resource]
+name = "ZqRes"
+cycle_interval_ms = 1
+
+[runtime.control]
+endpoint = "unix:///tmp/zq-trust-runtime.sock"
+mode = "production"
+debug_enabled = false
+
+[runtime.web]
+enabled = false
+listen = "127.0.0.1:8080"
+auth = "local"
+tls = false
+
+[runtime.tls]
+mode = "disabled"
+require_remote = false
+
+[runtime.discovery]
+enabled = false
+service_name = "truST"
+advertise = false
+interfaces = []
+
+[runtime.mesh]
+enabled = false
+listen = "127.0.0.1:5200"
+tls = false
+auth_token = ""
+publish = []
+
+[runtime.log]
+level = "info"
+
+[runtime.retain]
+mode = "none"
+save_interval_ms = @SAVE_MS@
+
+[runtime.watchdog]
+enabled = @WD_ENABLED@
+timeout_ms = @WD_MS@
+action = "@WD_ACTION@"
+
+[runtime.fault]
+policy = "@POLICY@"
+"#;
+pub(crate) fn load_runtime_toml(dir: &std::path::Path, policy: &str, wd_enabled: bool, wd_ms: u64, wd_action: &str, save_ms: u64) -> Result<trust_runtime::config::RuntimeConfig, String> {
+    std::fs::create_dir_all(dir).map_err(|e| e.to_string())?;
+    let text = RUNTIME_TOML.replace("@SAVE_MS@", &save_ms.to_string()).replace("@WD_ENABLED@", if wd_enabled { "true" } else { "false" })
+        .replace("@WD_MS@", &wd_ms.to_string()).replace("@WD_ACTION@", wd_action).replace("@POLICY@", policy);
+    let p = dir.join("runtime.toml");
+    std::fs::write(&p, text).map_err(|e| e.to_string())?;
+    trust_runtime::config::RuntimeConfig::load(&p).map_err(|e| format!("runtime.toml: {e}"))
+}
+fn load_io_toml(dir: &std::path::Path, safe: &[(usize, i64)], k: usize) -> Result<trust_runtime::config::IoConfig, String> {
+    let mut text = String::from("[io]\ndriver = \"simulated\"\nparams = {}\n");
+    for (i, (b, v)) in safe.iter().enumerate() {
+        // decimal and both hexadecimal spellings in turn
+        let vt = match (k + i) % 3 { 0 => format!("{v}"), 1 => format!("0x{v:02X}"), _ => format!("0X{v:x}") };
+        text.push_str(&format!("\n[[io.safe_state]]\naddress = \"%QB{b}\"\nvalue = \"{vt}\"\n"));
+    }
+    let p = dir.join("io.toml");
+    std::fs::write(&p, text).map_err(|e| e.to_string())?;
+    trust_runtime::config::IoConfig::load(&p).map_err(|e| format!("io.toml: {e}"))
+}
+
 fn err_kind(e: &Option<RuntimeError>) -> String {
     match e {
         None => "none".into(),
@@ -96,6 +170,10 @@ fn one_run(rng: &mut StdRng, k: usize) -> Result<Vec<J>, String> {
     let policy = ["halt", "safe_halt", "restart"][(k / 4) % 3];
     let wd = ["halt", "safe_halt", "restart"][(k / 12) % 3];
     let shared_runner = (k / 36) % 2 == 0;
+    // how the policies reach the runtime: from the configuration files at start, or -- started with OTHER policies --
+    // by one `config.set` request to a real control endpoint whose resource commands go to this resource thread
+    let live = (k / 72) % 2 == 1;
+    let rot = |x: &str| match x { "halt" => "safe_halt", "safe_halt" => "restart", _ => "halt" };
     let ndrv = rng.gen_range(1..=3usize);
     let failing_drv = rng.gen_range(0..ndrv);
     let mut safe: Vec<(usize, i64)> = Vec::new();
@@ -113,21 +191,21 @@ fn one_run(rng: &mut StdRng, k: usize) -> Result<Vec<J>, String> {
         let f = if d == failing_drv { fail.clone() } else { Arc::new(AtomicBool::new(false)) };
         rt.add_io_driver(format!("d{d}"), Box::new(Drv { d: d + 1, log: log.clone(), fail: f }));
     }
-    rt.set_fault_policy(match policy { "safe_halt" => FaultPolicy::SafeHalt, "restart" => FaultPolicy::Restart, _ => FaultPolicy::Halt });
-    let action = match wd { "safe_halt" => WatchdogAction::SafeHalt, "restart" => WatchdogAction::Restart, _ => WatchdogAction::Halt };
     // the watchdog measures wall time: it is enabled only in watchdog runs (a slow cycle takes >> 3 ms, a
     // normal one a few microseconds; a normal cycle that is descheduled for longer trips it early, which
     // the specification allows -- the fault kind is then still the watchdog's)
-    rt.set_watchdog_policy(WatchdogPolicy { enabled: kind == "watchdog", timeout: Duration::from_millis(3), action });
-    let mut st = IoSafeState::default();
-    for (b, v) in &safe {
-        st.outputs.push((IoAddress::parse(&format!("%QB{b}")).map_err(|e| e.to_string())?, Value::Byte(*v as u8)));
-    }
-    rt.set_io_safe_state(st);
+    let cfgdir = std::env::temp_dir().join(format!("zq-resfault-{}-{k}", std::process::id()));
+    let loaded = if live { load_runtime_toml(&cfgdir, rot(policy), false, 1000, rot(wd), 1000) } else { load_runtime_toml(&cfgdir, policy, kind == "watchdog", 3, wd, 1000) }
+        .and_then(|c| load_io_toml(&cfgdir, &safe, k).map(|i| (c, i)));
+    let _ = std::fs::remove_dir_all(&cfgdir);
+    let (rcfg, iocfg) = loaded?;
+    rt.set_watchdog_policy(rcfg.watchdog);
+    rt.set_fault_policy(rcfg.fault_policy);
+    rt.set_io_safe_state(iocfg.safe_state.clone());
     let clock = ManualClock::new();
     let mut runner = ResourceRunner::new(rt, clock.clone(), Duration::from_millis(1));
     // a fault disturbance of the simulation layer, due after a few cycles (the loop applies it before a cycle)
-    let sim_at = rng.gen_range(2..7i64);
+    let sim_at = rng.gen_range(2..7i64) + if live { 40 } else { 0 };
     if kind == "simulation" {
         use trust_runtime::simulation::{SimulationConfig, SimulationController, SimulationDisturbance, SimulationDisturbanceKind};
         let cfg = SimulationConfig { enabled: true, seed: 1, time_scale: 1, couplings: vec![],
@@ -148,12 +226,54 @@ fn one_run(rng: &mut StdRng, k: usize) -> Result<Vec<J>, String> {
     while writes() < warm * ndrv && t0.elapsed().as_secs() < 20 && ctl.state() != ResourceState::Faulted {
         tick();
     }
+    if live {
+        let fxdir = std::env::temp_dir().join(format!("zq-resfault-fx-{}-{k}", std::process::id()));
+        std::fs::create_dir_all(&fxdir).map_err(|e| e.to_string())?;
+        let mut fx = crate::ctrlauth::Fx::build_with_pairing(&fxdir, &crate::ctrlauth::Cfg { token: false, debug: false, mode: "debug".into() }, None);
+        let target = ctl.clone();
+        *fx.forward.lock().unwrap() = Some(Box::new(move |c| {
+            let _ = target.send_command(c);
+        }));
+        let line = json!({"id": 7, "type": "config.set", "params": {"fault.policy": policy, "watchdog.enabled": kind == "watchdog", "watchdog.timeout_ms": 3, "watchdog.action": wd}}).to_string();
+        let reply = fx.ask(&line).line().unwrap_or_default();
+        let ok = serde_json::from_str::<J>(&reply).map(|r| r["ok"] == json!(true)).unwrap_or(false);
+        push(json!({"a": "Inject", "config_set": ok}));
+        if !ok {
+            return Err(format!("config.set was not accepted: {reply}"));
+        }
+        // the stub behind the endpoint hands the commands on from a thread of its own: wait until the last of the
+        // three has passed it
+        let t0 = std::time::Instant::now();
+        while !fx.commands().iter().any(|c| c.starts_with("UpdateRetainSaveInterval")) {
+            if t0.elapsed().as_secs() > 20 {
+                return Err("config.set did not send its resource commands".into());
+            }
+            std::thread::sleep(std::time::Duration::from_millis(1));
+        }
+        std::thread::sleep(std::time::Duration::from_millis(2));
+        // the loop drains its commands at the top of an iteration: two more cycles and they are in force
+        let w0 = writes();
+        let t0 = std::time::Instant::now();
+        while writes() < w0 + 2 * ndrv && t0.elapsed().as_secs() < 20 && ctl.state() != ResourceState::Faulted {
+            tick();
+        }
+        *fx.forward.lock().unwrap() = None;
+        drop(fx);
+        let _ = std::fs::remove_dir_all(&fxdir);
+    }
     // provoke
     let mut up = IndexMap::new();
     match kind {
         "error" => { up.insert("boom".into(), Value::Bool(true)); }
         "watchdog" => { up.insert("slow".into(), Value::Bool(true)); }
-        "simulation" => {}
+        "simulation" => {
+            // the disturbance comes by itself: let the clock reach its time
+            use trust_runtime::scheduler::Clock;
+            let t0 = std::time::Instant::now();
+            while clock.now().as_nanos() < (sim_at - 1) * 1_000_000 && t0.elapsed().as_secs() < 20 && ctl.state() != ResourceState::Faulted {
+                tick();
+            }
+        }
         _ => fail.store(true, Ordering::SeqCst),
     }
     push(json!({"a": "Inject"}));
@@ -215,7 +335,7 @@ fn one_run(rng: &mut StdRng, k: usize) -> Result<Vec<J>, String> {
         }
         ok
     };
-    let mut evs = vec![json!({"a": "Reset", "k": k, "kind": kind, "policy": policy, "wd": wd, "runner": if shared_runner { "shared" } else { "plain" }, "ndrv": ndrv,
+    let mut evs = vec![json!({"a": "Reset", "k": k, "kind": kind, "policy": policy, "wd": wd, "runner": if shared_runner { "shared" } else { "plain" }, "cfgvia": if live { "config.set" } else { "files" }, "ndrv": ndrv,
                               "failing": failing_drv + 1, "safe": safe.iter().map(|(b, v)| json!({"b": b + 1, "v": v})).collect::<Vec<_>>()})];
     evs.extend(log.lock().unwrap().drain(..));
     evs.push(json!({"a": "End", "joined": joined}));
